@@ -10,7 +10,8 @@ NOT_APPLICABLE = {}
 PROPS = {
     "C07": {
         "pkg": "c07",
-        "stages": [{"run": "^TestProp$", "quick": (12000, 8), "thorough": (40000, 16)}],
+        "stages": [{"run": "^TestProp$", "quick": (12000, 8), "thorough": (40000, 16)},
+                   {"run": "^TestPropHTTPBody$", "quick": (3000, 4), "thorough": (20000, 16)}],
         "rule": "rapid draws a rule (verb x 1-2 path variables on top-level/nested string and integer fields x "
                 "sub-pattern x body none/*/book) and a request whose path captures v1 while a competing v2 is sent "
                 "through the query (proto or JSON key, once or twice) and/or the JSON/protobuf body; oracle: the handler's "
@@ -373,6 +374,15 @@ _amend("C16", "rule", "nested additional_bindings,", "nested additional_bindings
 _amend("C18", "rule", "0-4 replies,", "0-4 replies (un.All, or google.api.HttpBody on the unary and server-streaming raw methods),")
 _amend("C19", "rule", "compared annotation vs config);", "compared annotation vs config; in 1 case of 4 the selected method also carries an annotation of its own on the same verb and path position that maps differently, and the configured rule must still be the one in force);")
 
+_amend("C07", "rule", "Non-trivial", "A second property (TestPropHTTPBody) binds a variable INSIDE a google.api.HttpBody body field ({file.content_type=*/*}) on unary and client-streaming uploads, where the request's own Content-Type header and a query key compete; the streaming handler reads with RecvMsg or with larking.AsHTTPBodyReader. Ten per cent of the generated rules are client-streaming over plain HTTP (the URL is bound to the first message). Non-trivial")
+_amend("C03", "rule", "optionally gzip,", "optionally gzip (one member, or two concatenated members),")
+_amend("C08", "rule", "Non-trivial", "Half of the WebSocket cases send each message as RFC 6455 fragments of 1, 7, L/2, L-1 or L bytes. Non-trivial")
+_amend("C09", "rule", "Non-trivial", "On the WebSocket entry the frames the server writes are parsed and validated (control frames <= 125 bytes, close code and UTF-8 reason per RFC 6455, text frames valid UTF-8). Non-trivial")
+_amend("C10", "rule", "rapid draws shape, front end,", "rapid draws shape, front end (gRPC, gRPC with gzip, HTTP/JSON - the latter streams its request messages for client-streaming and bidi methods),")
+_amend("C14", "rule", "Non-trivial", "In one case of three the handler sets its header and trailer metadata one value per SetHeader/SetTrailer call. Non-trivial")
+_amend("C16", "rule", "Oracle: valid => nil error and an instantiated path routes to the method;", "Oracle: valid => nil error and instantiated paths (one fixed, two generated with wildcards steered towards literals the base rules spell) route to the method;")
+_amend("C18", "rule", "gRPC, gRPC-web),", "gRPC, gRPC-web with grpc-encoding absent / identity / gzip),")
+_amend("C19", "rule", "compared annotation vs config;", "compared annotation vs config (in 1 of 3 multi-binding cases the config first selects the method with the primary binding alone and then with the full rule);")
 # native coverage-guided fuzzing of the same generators (thorough tier only)
 for _k, _t in (("C01", "FuzzRoute"), ("C03", "FuzzTranscode"), ("C16", "FuzzRegister"), ("C17", "FuzzCodec")):
     PROPS[_k]["fuzz"] = {"target": _t, "seconds": 120}
